@@ -117,7 +117,7 @@ Section MeshModel.
   Notation "x <- m ;; f" := (nbind m (fun x => f)) (at level 61, m at next level, right associativity).
   Notation "m ;;; f" := (nbind m (fun _ => f)) (at level 61, right associativity).
 
-  Definition FUEL : nat := 4000.
+  Definition FUEL : nat := N.to_nat 300000.
 
   Definition set_fb_fields (n : node) (fromv tov ty res : Z) (m : list N) : node :=
     set_fb n (mkFrame (mkHeader fromv tov (frame_id (fb_hdr n)) (IntT ty) res) m).
